@@ -37,6 +37,19 @@
 // it), writes ⊆ analyzer writes, and a schema-changing statement must be
 // classified as one (a UsageAdmin entry or a DDL StatementKind).
 //
+// Signatures. When the analyzer does not report the need, the cause is the
+// extractor and the signature is "<KIND> <read|write>@<clause>" (the top-level
+// clause of the statement text that names the uncovered table: select-list,
+// from, join-on, where, group-by, having, order-by, limit, with, set, values,
+// insert-select, on-conflict, returning, ddl-select, target) or "<KIND> ddl".
+// When the analyzer reports it and the endpoint still answers 2xx, the cause is
+// the endpoint: "read not enforced route=…", "<KIND> write route=…",
+// "<KIND> ddl route=…".
+//
+// The fixture refuses to start unless a plain SELECT succeeds with every grant
+// (otherwise "refusals are never judged" would make the check vacuous); the
+// opposite direction is the first fixed case.
+//
 // Deliberately not asserted (the statement does not fix them):
 //   - which extra permission an upsert (ON CONFLICT DO UPDATE) or INSERT OR
 //     REPLACE needs: the INSERT permission is taken as "matching";
@@ -690,8 +703,10 @@ func makeDB(file string) (*sql.DB, error) {
 		return nil, err
 	}
 	db.SetMaxOpenConns(1)
-	if _, err := db.Exec("PRAGMA synchronous=OFF"); err != nil {
-		return nil, err
+	for _, pragma := range []string{"PRAGMA busy_timeout=20000", "PRAGMA synchronous=OFF"} {
+		if _, err := db.Exec(pragma); err != nil {
+			return nil, err
+		}
 	}
 	for _, s := range sqlgen.Setup() {
 		if _, err := db.Exec(s); err != nil {
